@@ -182,7 +182,7 @@ def run(ck, facts):
     uni = [s for s in lits if s.strip().startswith("union")]
     okr = len(rec) == 1 and re.search(r"typedef struct \{fn_name\}_result \{\{\s*\{union_def\}\s*bool is_ok;\s*\}\}", rec[0]) is not None
     oku = len(uni) == 1 and re.match(r"union \{\{\s*\{ok_line\}\s*\{err_line\}\s*\}\};", uni[0]) is not None
-    okl = any(re.fullmatch(r"\{ok_name\} ok;", s) for s in lits) and any(re.fullmatch(r"\{err_name\} err;", s) for s in lits)
+    okl = any(re.fullmatch(r"\{\w*\} ok;", s) for s in lits) and any(re.fullmatch(r"\{\w*\} err;", s) for s in lits)
     ck.expect(okr and oku and okl, "R3", "gen_result_ty/record", "struct {union {T ok; E err;}; bool is_ok;}", "the per-method result typedef is no longer {union{ok;err}; bool is_ok;}: %s / %s" % (rec, uni), C.loc(g))
     # callback struct
     impl = tmpl.strip_stmts(tmpl.flat_file("c/impl.h.jinja", resolve_includes=False))
@@ -212,15 +212,17 @@ def run(ck, facts):
     stmts = body.get("s", []) + ([body["e"]] if body.get("e") else [])
     idx_self = idx_for = idx_write = None
     for i, st in enumerate(stmts):
-        txt_calls = [x for x in C.calls_in(st) if x.get("k") == "mcall" and x.get("m") == "push" and C.strip(x["recv"]).get("n") == "param_decls"]
-        if not txt_calls:
+        # a statement fills the declaration list if it pushes onto it, or hands it (`&mut param_decls`) to a helper that does
+        touches = any(x.get("k") == "local" and x.get("n") == "param_decls" for x in C.walk(st)) and \
+            any(x.get("k") == "mcall" and x.get("m") in ("push", "extend") for x in C.walk_inl(tool, st, 1))
+        if not touches:
             continue
         inner = C.strip(st)
-        if inner.get("k") == "if" and any(x.get("k") == "field" and x.get("n") == "param_self" for x in C.walk(inner["c"])) and idx_self is None:
+        if inner.get("k") in ("if", "match") and any(x.get("k") == "field" and x.get("n") == "param_self" for x in C.walk(inner.get("c") or inner.get("s") or {})) and idx_self is None:
             idx_self = i
         elif inner.get("k") == "for" and any(x.get("k") == "field" and x.get("n") == "params" for x in C.walk(inner["iter"])):
             idx_for = i
-        elif any(s == "write" for s in C.str_lits(st)):
+        elif any(re.search(r"\bwrite\b", s_) for x in C.walk_inl(tool, st, 1) for s_ in ([x["v"]] if x.get("k") == "lit" and x.get("t") == "str" else ([x.get("src", "")] if x.get("k") == "macro" else []))):
             idx_write = i
     ck.expect(idx_self is not None and idx_for is not None and idx_write is not None and idx_self < idx_for < idx_write, "R4", "c::gen_method/self<params<write",
               "statements %s < %s < %s" % (idx_self, idx_for, idx_write), "C method generator no longer pushes self, then params, then write (positions %s, %s, %s)" % (idx_self, idx_for, idx_write), C.loc(gm))
